@@ -127,10 +127,11 @@ func newSweepGen(seed int64, tier string) *sweepGen {
 	g := &sweepGen{seed: seed, tier: tier}
 	thorough := tier == "thorough"
 	nAll, nCore, nMini, nTiny := len(allClasses), len(coreClasses), len(miniClasses), len(tinyClasses)
-	// quick: one hostile position over the core classes, one pivot vector; thorough: over every class, two pivot vectors
+	// quick: one hostile position over the core classes, pairs over the ten tiny classes; thorough: one hostile
+	// position over every class, pairs over the sixteen mini classes, triples over the tiny classes
 	g.star, g.npiv, g.pairs = coreClasses, 1, tinyClasses
 	if thorough {
-		g.star, g.npiv, g.pairs = starClasses, 2, coreClasses
+		g.star, g.npiv, g.pairs = starClasses, 1, miniClasses
 	}
 	add := func(fn string, ar int, kind string, count int) {
 		if count <= 0 {
